@@ -278,7 +278,19 @@ def reentrancy(chk):
     reent.threaded(chk, 'reentrancy', cases, seconds=2.0 if chk.tier == 'thorough' else 0.6)
 
 
+def first_use(chk):
+    """Before anything else has been encoded in this process: an integer whose FIRST encoding attempt was made with an equal
+    value of the wrong type (5.0, Fraction(5), Decimal(5), '5' - the call may raise) still encodes canonically afterwards."""
+    import reent
+    from fractions import Fraction
+    from decimal import Decimal
+    from minecraft.networking.types import VarInt, VarLong
+    fresh = [('VarInt', VarInt.send, v, leb128(v)) for v in (5, 77, 200, 4242, 16383, 70000)] + [('VarLong', VarLong.send, v, leb128(v)) for v in (6, 78, 201, 4243)]
+    reent.after_bad_argument(chk, 'reentrancy', fresh, lambda v: [float(v), Fraction(v), Decimal(v), complex(v), str(v)])
+
+
 def run(chk):
+    first_use(chk)
     common.standard_proof(chk, 'Properties/C03.v')
     check_table(chk)
     check_read(chk, gen_read(chk))
